@@ -25,6 +25,7 @@ type C13Case struct {
 	HasPrec bool   `json:"hasprec,omitempty"`
 	Flags   string `json:"flags,omitempty"`
 	Width   int    `json:"width,omitempty"` // 0: none
+	Pad     int    `json:"pad,omitempty"`   // > 0: the width is chosen so that exactly Pad padding bytes are needed
 }
 
 func float64Spec(f float64) h.Spec {
@@ -50,11 +51,15 @@ func genFlags(t *rapid.T) string {
 	if rapid.IntRange(0, 3).Draw(t, "fl ") == 0 {
 		s += " "
 	}
-	switch rapid.IntRange(0, 5).Draw(t, "flpad") {
+	switch rapid.IntRange(0, 7).Draw(t, "flpad") {
 	case 0:
 		s += "0"
 	case 1:
 		s += "-"
+	case 2:
+		s += "-0" // '-' wins
+	case 3:
+		s += "0-"
 	}
 	return s
 }
@@ -142,6 +147,10 @@ func genC13(t *rapid.T) C13Case {
 	c.Flags = genFlags(t)
 	if rapid.Bool().Draw(t, "haswidth") {
 		c.Width = rapid.IntRange(1, 40).Draw(t, "width")
+		if rapid.IntRange(0, 7).Draw(t, "padcls") == 0 {
+			// padding amounts around the sizes an implementation might write in chunks
+			c.Pad = rapid.SampledFrom([]int{31, 32, 33, 63, 64, 65, 127, 128, 129, 255, 256, 257, 384, 512, 1000, 1024}).Draw(t, "pad")
+		}
 	}
 	return c
 }
@@ -160,9 +169,6 @@ func (c C13Case) spec() string {
 // excludedSpec: flag combinations where fmt's printing of built-in floats is
 // not observable by a fmt.Formatter (math/big.Float behaves like Decimal).
 func (c C13Case) excludedSpec() string {
-	if strings.Contains(c.Flags, "-") && strings.Contains(c.Flags, "0") {
-		return "minus+zero"
-	}
 	if c.Verb == "v" && (strings.Contains(c.Flags, "+") || strings.Contains(c.Flags, " ")) {
 		return "plusV"
 	}
@@ -225,12 +231,17 @@ func checkC13(c C13Case, o *h.Obs) *h.Fail {
 		return h.Failf("text", "Text(%q, %d) of %v (mode %v, prec %d) = %q, reference %q", textVerb, fprec, xv, mode, c.X.P, h.FirstN(got, 300), h.FirstN(want, 300))
 	}
 	// Format == fmt layout rules applied to the body
+	if c.Pad > 0 {
+		c.Width = len(model.FmtLayout(want, strings.Contains(c.Flags, "+"), strings.Contains(c.Flags, " "), false, false, 0)) + c.Pad
+		o.Label("pad-exact")
+	}
 	spec := c.spec()
 	fgot := fmt.Sprintf(spec, x)
 	ex := c.excludedSpec()
-	if ex == "minus+zero" {
-		o.Label("excluded:" + ex)
-	} else if c.Verb == "p" {
+	if strings.Contains(c.Flags, "-") && strings.Contains(c.Flags, "0") {
+		o.Label("minus+zero")
+	}
+	if c.Verb == "p" {
 		// fmt handles %p (pointer) itself and never calls a Formatter for it
 		o.Label("excluded:fmt-%p-is-pointer")
 	} else {
@@ -267,7 +278,7 @@ func checkC13(c C13Case, o *h.Obs) *h.Fail {
 	return nil
 }
 
-const ruleC13 = "rapid-generated (value, verb/format, precision -1..40 or near the value's digit count / leading-digit position, flags from {+, space, 0, -}, width 0..40). Two oracles. (f64) the value is the exact decimal expansion (<= 767 digits) of a float64 (uniform bits, subnormals, extremes, decimal-looking values n/10^k, dyadic fractions, +-0, +-Inf), mode ToNearestEven: Text(c,p) == strconv.FormatFloat(f,c,p,64) for p >= 0 and fmt.Sprintf(spec, x) == fmt.Sprintf(spec, f). (ref) any Decimal incl. dirty zeros/infinities and 1-12 digit values with tie/all-nines patterns at exponents -45..25, under its own rounding mode: Text == reference formatter (round once with the reference rounding at the requested position, which may lie at or above the leading digit, then strconv's e/f/g layout rules; p and b per the Text documentation), and Format == fmt's sign/width/flag rules applied to that body (the emulation is itself cross-checked against fmt on every f64 case). Excluded by construction and counted: '-' together with '0' (not observable through fmt.State in this Go version; math/big.Float pads like Decimal), '+'/' ' with %v in the fmt differential (fmt's plusV), 'f' with |exp| > 5000. Non-trivial = the value has more digits than requested, or the rounding position is at/above the leading digit, or flags/width are non-default."
+const ruleC13 = "rapid-generated (value, verb/format, precision -1..40 or near the value's digit count / leading-digit position, flags from {+, space, 0, -}, width 0..40). Two oracles. (f64) the value is the exact decimal expansion (<= 767 digits) of a float64 (uniform bits, subnormals, extremes, decimal-looking values n/10^k, dyadic fractions, +-0, +-Inf), mode ToNearestEven: Text(c,p) == strconv.FormatFloat(f,c,p,64) for p >= 0 and fmt.Sprintf(spec, x) == fmt.Sprintf(spec, f). (ref) any Decimal incl. dirty zeros/infinities and 1-12 digit values with tie/all-nines patterns at exponents -45..25, under its own rounding mode: Text == reference formatter (round once with the reference rounding at the requested position, which may lie at or above the leading digit, then strconv's e/f/g layout rules; p and b per the Text documentation), and Format == fmt's sign/width/flag rules applied to that body (the emulation is itself cross-checked against fmt on every f64 case). In one case in eight with a width the width is chosen from the formatted length so that the padding is exactly 31..33, 63..65, 127..129, 255..257, 384, 512, 1000 or 1024 bytes. '-' together with '0' is checked like every other combination ('-' wins, as in fmt). Excluded by construction and counted: '+'/' ' with %v in the fmt differential (fmt's plusV), 'f' with |exp| > 5000. Non-trivial = the value has more digits than requested, or the rounding position is at/above the leading digit, or flags/width are non-default."
 
 // carryPastMaxExp: rounding x at the requested position carries into a power of
 // ten whose exponent is MaxExp+1, which the temporary Decimal used by Append
